@@ -142,10 +142,11 @@ class LibRef:
 class NativeObj:
     """A model object supplied by a rule (e.g. an `Import` with fixed importer / importee)."""
 
-    def __init__(self, label: str, methods: dict, attrs: dict | None = None) -> None:
+    def __init__(self, label: str, methods: dict, attrs: dict | None = None, poison_ok: bool = False) -> None:
         self.label = label
         self.methods = methods
         self.attrs = attrs or {}
+        self.poison_ok = poison_ok  # the methods want to see undetermined arguments (a model that records that it became unreliable)
 
     def __repr__(self) -> str:
         return self.label
@@ -250,10 +251,11 @@ def _deep_poison(v: object, depth: int = 0) -> bool:
 
 
 class Evaluator:
-    def __init__(self, repo: Repo, tolerant: bool = False, intercept: dict | None = None, budget: int = 400_000, max_depth: int = 40) -> None:
+    def __init__(self, repo: Repo, tolerant: bool = False, intercept: dict | None = None, budget: int = 400_000, max_depth: int = 40, lib_models: dict | None = None) -> None:
         self.repo = repo
         self.tolerant = tolerant
         self.intercept = intercept or {}  # class fq -> callback(args, kwargs, uncertain) -> value
+        self.lib_models = lib_models or {}  # dotted library name -> callback(args, kwargs) -> model value (e.g. networkx.DiGraph)
         self.budget = budget
         self.steps = 0
         self.max_depth = max_depth
@@ -694,6 +696,8 @@ class Evaluator:
 
     @staticmethod
     def _iterable(v: object) -> bool:
+        if isinstance(v, NativeObj) and "__iter__" in v.methods:
+            return True
         if isinstance(v, (Obj, Fn, Bound, Closure, Partial, ClassRef, LibRef, NativeObj, _Poison)):
             return False
         try:
@@ -704,6 +708,8 @@ class Evaluator:
 
     def _iterate(self, v: object):
         n = 0
+        if isinstance(v, NativeObj) and "__iter__" in v.methods:
+            v = list(v.methods["__iter__"]())
         for x in v:  # type: ignore[attr-defined]
             n += 1
             if n > 20000:
@@ -818,6 +824,8 @@ class Evaluator:
                 m = self.repo.lookup_method(o.cls, "__getitem__")
                 if m is not None:
                     return self.call_function(m, [k], {}, o)
+            if isinstance(o, NativeObj) and "__getitem__" in o.methods:
+                return o.methods["__getitem__"](k)
             if type(o).__name__ == "_PathParents":
                 try:
                     return o[k]  # type: ignore[index]
@@ -921,6 +929,9 @@ class Evaluator:
                 raise Unknown("identity of two equal immutable values is an implementation detail")
             return same if op is ast.Is else not same
         if op in (ast.In, ast.NotIn):
+            if isinstance(b, NativeObj) and "__contains__" in b.methods:
+                r = self._truth(b.methods["__contains__"](a))
+                return r if r is POISON else (r if op is ast.In else not r)
             if isinstance(b, Obj):
                 m = self.repo.lookup_method(b.cls, "__contains__")
                 if m is None:
@@ -1083,7 +1094,9 @@ class Evaluator:
                 return o.attrs[attr]
             if attr in o.methods:
                 fn = o.methods[attr]
-                return model(lambda *a, **k: fn(*a, **k))
+                w = model(lambda *a, **k: fn(*a, **k))
+                w._c09_takes_poison = o.poison_ok
+                return w
             raise Unknown(f"`{attr}` of {o.label}")
         if isinstance(o, LibRef):
             name = f"{o.name}.{attr}"
@@ -1245,6 +1258,8 @@ class Evaluator:
         return o
 
     def _lib_call(self, name: str, args: list, kwargs: dict):
+        if name in self.lib_models:
+            return self.lib_models[name](args, kwargs)
         if name in ("functools.partial",):
             if not args:
                 raise Raised("TypeError")
@@ -1259,6 +1274,36 @@ class Evaluator:
                 if not self._iterable(i):
                     raise Raised("TypeError")
             return iter([self.apply(args[0], list(xs)) for xs in zip(*[list(self._iterate(i)) for i in its])])
+        if name in ("itertools.accumulate", "functools.reduce"):
+            # accumulate(iterable, func=operator.add, *, initial=None) / reduce(func, iterable[, initial])
+            if name == "itertools.accumulate":
+                seq, fn = (args[0] if args else POISON), (args[1] if len(args) > 1 else kwargs.get("func"))
+                has_init, init = kwargs.get("initial") is not None, kwargs.get("initial")
+            else:
+                if len(args) < 2:
+                    raise Raised("TypeError")
+                fn, seq = args[0], args[1]
+                has_init, init = len(args) > 2, (args[2] if len(args) > 2 else None)
+            if seq is POISON or fn is POISON or init is POISON:
+                return POISON
+            if not self._iterable(seq):
+                raise Raised("TypeError")
+            items = list(self._iterate(seq))
+            if has_init:
+                items = [init, *items]
+            steps: list = []
+            for x in items:
+                if not steps:
+                    steps.append(x)
+                else:
+                    steps.append(self._binop(ast.Add, steps[-1], x) if fn is None else self.apply(fn, [steps[-1], x]))
+                if steps[-1] is POISON:
+                    return POISON
+            if name == "functools.reduce":
+                if not steps:
+                    raise Raised("TypeError")
+                return steps[-1]
+            return iter(steps)
         if name == "builtins.filter":
             if len(args) != 2:
                 raise Raised("TypeError")
@@ -1339,6 +1384,8 @@ class Evaluator:
         raise Unknown(f"library call {name}")
 
     def _native(self, f: object, args: list, kwargs: dict):
+        if getattr(f, "_c09_model", False) and getattr(f, "_c09_takes_poison", False):
+            return f(*args, **kwargs)  # type: ignore[operator]
         vals = [*args, *kwargs.values()]
         recv = getattr(f, "__self__", None)
         if any(v is POISON for v in vals):
